@@ -94,8 +94,9 @@ site('qbe.c', 'dataitem', 'fatal', 'not a address expr', T('decl', 'static int x
 site('qbe.c', 'emitclass', 'fatal', 'type has no QBE representation', J('internal', 'classes are computed for scalars and aggregates only'))
 site('qbe.c', 'emitdata', 'error', 'initializer is not a constant expression',
      T('decl', 'static struct { int a_ : 3; } x_ = { h_v };', note='regression (fixed 987b1f6): was an assertion failure'),
-     T('decl', 'static union { int x_ : 5; int y_ : 10; } u_ = { h_v = 123 };'), T('bdecl', 'static struct { int a_; unsigned b_ : 7; } x_ = { 1, h_l };'))
-for cond in ('cur->expr->kind==EXPRSTRING', 'cur->expr->type->prop&PROPINT', 'init->expr->kind==EXPRCONST', 'offset<=d->type->size'):
+     T('decl', 'static union { int x_ : 5; int y_ : 10; } u_ = { h_v = 123 };'), T('bdecl', 'static struct { int a_; unsigned b_ : 7; } x_ = { 1, h_l };'),
+     T('decl', 'static struct { char s_[4]; } x_ = { .s_ = "abc", .s_[1] = (char)(long)&h_v };', note='regression (fixed 5cabd25): was an assertion failure'), n=2)
+for cond in ('cur->expr->kind==EXPRSTRING', 'cur->expr->type->prop&PROPINT', 'offset<=d->type->size'):
     site('qbe.c', 'emitdata', 'assert', cond, J('internal', 'invariants of the initializer list built by init.c (see finding C10-scalar-excess-initializer for one that can fail)'))
 site('qbe.c', 'emitinst', 'assert', 'inst->kind<LEN(instname)', J('internal', 'instruction table'))
 site('qbe.c', 'emitjump', 'assert', '0', J('internal', 'jump kinds are exhaustive'))
@@ -174,7 +175,10 @@ site('util.c', 'xreallocarray', 'fatal', 'reallocarray:', J('io', 'out of memory
 site('util.c', 'arraylast', 'assert', 'n<=a->len', J('internal', 'callers keep at least one element'))
 site('map.c', 'mapinit', 'assert', '!(cap&cap-1)', J('internal', 'capacities at the call sites are literal powers of two (checked by C16)'))
 site('tree.c', 'treeinsert', 'assert', 'sz>sizeof(*n)', J('internal', 'node payload sizes at the call sites'))
-site('type.c', 'typeadjust', 'assert', '*tq==QUALNONE', J('internal', 'array types carry their qualifiers on the element type'))
+site('type.c', 'typeadjust', 'error', 'parameter of function type cannot be qualified',
+     T('fdecl', 'typedef void ft_(void); void g_(const ft_ f_);', gcc='6.7.3p9 makes a qualified function type undefined, not a constraint violation: gcc only warns with -pedantic',
+       note='regression (fixed a5b4019): was an assertion failure'),
+     T('fdecl', 'typedef int ft_(int); int g_(volatile ft_ f_) { return 0; }', gcc='6.7.3p9: undefined behaviour; gcc only warns'))
 site('type.c', 'typecommonreal', 'assert', 't1->prop&PROPREAL&&t2->prop&PROPREAL', J('internal', 'callers check arithmetic operands'))
 site('type.c', 'typecommonreal', 'fatal', 'internal error; could not find common real type', J('internal', 'rank ladder is exhaustive'))
 site('type.c', 'typehasint', 'assert', 't->prop&PROPINT', J('internal', 'callers pass integer types'))
